@@ -33,7 +33,10 @@ def load(*modnames):
 
 # modules whose module-global name `pandas` is bound to the contract model vf.pdstub while running symbolically
 PANDAS_STUBBED = ["pybrops.breed.prot.pt.G_E_Phenotyping", "pybrops.breed.prot.pt.TruePhenotyping", "pybrops.breed.prot.bv.MeanPhenotypicBreedingValue",
-                  "pybrops.breed.prot.bv.TrueBreedingValue", "pybrops.core.error.error_type_pandas", "pybrops.core.error.error_value_pandas"]
+                  "pybrops.breed.prot.bv.TrueBreedingValue", "pybrops.core.error.error_type_pandas", "pybrops.core.error.error_value_pandas",
+                  "pybrops.popgen.bvmat.DenseBreedingValueMatrix", "pybrops.core.mat.DenseSquareTaxaTraitMatrix", "pybrops.popgen.gmap.StandardGeneticMap",
+                  "pybrops.popgen.gmap.ExtendedGeneticMap", "pybrops.model.vmat.DenseTwoWayDHAdditiveGeneticVarianceMatrix",
+                  "pybrops.model.vmat.DenseTwoWayDHAdditiveGenicVarianceMatrix", "pybrops.model.vmat.DenseThreeWayDHAdditiveGeneticVarianceMatrix"]
 
 
 def symbolic_mode(on=True):
@@ -45,6 +48,8 @@ def symbolic_mode(on=True):
     import scipy.interpolate
     from . import pdstub
     pdstub.install(on, *PANDAS_STUBBED)
+    from . import h5stub
+    h5stub.install(on)
     for name in ("pybrops.popgen.gmap.StandardGeneticMap", "pybrops.popgen.gmap.ExtendedGeneticMap"):
         mod = sys.modules.get(name)
         if mod is not None and hasattr(mod, "interp1d"):
